@@ -5,6 +5,7 @@ prefix of what `a`'s application wrote on flow `x`.
 Core Lean only.
 -/
 import Penguin.Lemmas.PairAllMain
+import Penguin.Lemmas.MuxEofRead
 
 namespace Penguin.PairAll
 open Penguin.Mux
@@ -121,24 +122,116 @@ theorem run_grow (p : PS) (l : List (Side × Stim)) : Grow p.a (run p l).a ∧ G
 
 variable {ownA ownB : Prop}
 
-theorem PInv.step (hex : ¬(ownA ∧ ownB)) {p q : PS} {s : Side} {st : Stim} (h : PInv x jA j ownA ownB p)
-    (hs : step p s st = some q) (hja : J x jA q.a) (hjb : J x j q.b) : PInv x jA j ownA ownB q := by
-  cases s with
-  | A => exact h.stimA hex (stepL_spec hs).1 (stepL_spec hs).2 hja
-  | B =>
-    simp only [PairAll.step, Option.map_eq_some_iff] at hs
-    obtain ⟨q', hq', rfl⟩ := hs
-    exact h.stimB hex (stepL_spec hq').1 (stepL_spec hq').2 hjb
+/-- The stimuli of the endpoint model that a run applies to the RIGHT endpoint, in order … -/
+def opsB (p : PS) : List (Side × Stim) → List Mux.Op
+  | [] => []
+  | (s, st) :: rest =>
+    match step p s st with
+    | none => opsB p rest
+    | some q =>
+      (match s with
+        | .A => []
+        | .B => (match stimOp p.swap st with | some op => [op] | none => [])) ++ opsB q rest
 
-theorem PInv.run (hex : ¬(ownA ∧ ownB)) (p : PS) (l : List (Side × Stim)) (h : PInv x jA j ownA ownB p)
-    (hja : J x jA (run p l).a) (hjb : J x j (run p l).b) : PInv x jA j ownA ownB (run p l) := by
+/-- … and the end events they record (`Mux.applyOpEnds`). -/
+def endsB (p : PS) : List (Side × Stim) → List EndEv
+  | [] => []
+  | (s, st) :: rest =>
+    match step p s st with
+    | none => endsB p rest
+    | some q =>
+      (match s with
+        | .A => []
+        | .B => (match stimOp p.swap st with | some op => applyOpEnds p.b op | none => [])) ++ endsB q rest
+
+theorem stimL_op {p q : PS} {st : Stim} (h : stimL p st = some q) :
+    ∃ op, stimOp p st = some op ∧ q.a = (applyOp p.a op).1 ∧ q.b = p.b := by
+  cases st with
+  | call op =>
+    simp only [stimL] at h
+    split at h
+    · rename_i hc
+      have hq := Option.some.inj h; subst hq; exact ⟨op, by simp [stimOp, hc], rfl, rfl⟩
+    · cases h
+  | deliver =>
+    simp only [stimL] at h
+    split at h
+    · cases h
+    · rename_i m rest hba
+      split at h
+      · have hq := Option.some.inj h; subst hq; exact ⟨.deliver (.msg m), by simp [stimOp, hba], rfl, rfl⟩
+      · have hq := Option.some.inj h; subst hq; exact ⟨.deliver (.msg m), by simp [stimOp, hba], rfl, rfl⟩
+  | cut eof =>
+    have h' : some ({ actL p (.deliver (if eof = true then WsIn.eof else WsIn.err)) with ba := [], baOpen := false } : PS) = some q := h
+    have hq := Option.some.inj h'; subst hq
+    exact ⟨.deliver (if eof = true then WsIn.eof else WsIn.err), rfl, rfl, rfl⟩
+
+/-- The right endpoint of a run is the endpoint model after exactly those stimuli, and the recorded end events
+    are the ghost `Mux.endsOf` of that history. -/
+theorem run_b_ops (p : PS) (l : List (Side × Stim)) :
+    (run p l).b = runOps p.b (opsB p l) ∧ endsB p l = endsOf p.b (opsB p l) := by
   induction l generalizing p with
-  | nil => exact h
+  | nil => exact ⟨rfl, rfl⟩
   | cons sa rest ih =>
     obtain ⟨s, st⟩ := sa
+    simp only [PairAll.run, opsB, endsB]
+    cases hs : PairAll.step p s st with
+    | none => exact ih p
+    | some q =>
+      simp only [Option.getD_some]
+      obtain ⟨h1, h2⟩ := ih q
+      cases s with
+      | A =>
+        obtain ⟨op, _, _, hb⟩ := stimL_op (stepL_spec hs).1
+        simp only [List.nil_append]
+        rw [h1, h2, hb]; exact ⟨rfl, rfl⟩
+      | B =>
+        simp only [PairAll.step, Option.map_eq_some_iff] at hs
+        obtain ⟨q', hq', rfl⟩ := hs
+        obtain ⟨op, hop, ha, _⟩ := stimL_op (stepL_spec hq').1
+        simp only [hop]
+        have hb : (PS.swap q').b = (applyOp p.b op).1 := ha
+        rw [h1, h2, hb]
+        exact ⟨by simp [runOps], by simp [endsOf]⟩
+
+theorem PInv.step (hex : ¬(ownA ∧ ownB)) {p q : PS} {s : Side} {st : Stim} {Db : List EndEv}
+    (h : PInv x jA j ownA ownB p Db) (hs : step p s st = some q) (hja : J x jA q.a) (hjb : J x j q.b) :
+    PInv x jA j ownA ownB q (Db ++ endsB p [(s, st)]) := by
+  cases s with
+  | A =>
+    have : endsB p [(Side.A, st)] = [] := by simp [endsB, hs]
+    rw [this, List.append_nil]
+    exact h.stimA hex (stepL_spec hs).1 (stepL_spec hs).2 hja
+  | B =>
+    have hs0 := hs
+    simp only [PairAll.step, Option.map_eq_some_iff] at hs
+    obtain ⟨q', hq', rfl⟩ := hs
+    obtain ⟨op, hop, hp⟩ := h.stimB hex (stepL_spec hq').1 (stepL_spec hq').2 hjb
+    have : endsB p [(Side.B, st)] = applyOpEnds p.b op := by simp [endsB, hs0, hop]
+    rw [this]; exact hp
+
+theorem endsB_cons (p : PS) (s : Side) (st : Stim) (rest : List (Side × Stim)) :
+    endsB p ((s, st) :: rest) = endsB p [(s, st)] ++ endsB ((step p s st).getD p) rest := by
+  simp only [endsB]
+  cases step p s st with
+  | none => simp
+  | some q => simp
+
+theorem PInv.run (hex : ¬(ownA ∧ ownB)) (p : PS) (l : List (Side × Stim)) {Db : List EndEv}
+    (h : PInv x jA j ownA ownB p Db) (hja : J x jA (run p l).a) (hjb : J x j (run p l).b) :
+    PInv x jA j ownA ownB (run p l) (Db ++ endsB p l) := by
+  induction l generalizing p Db with
+  | nil => simpa [endsB, PairAll.run] using h
+  | cons sa rest ih =>
+    obtain ⟨s, st⟩ := sa
+    rw [endsB_cons, ← List.append_assoc]
     unfold PairAll.run at hja hjb ⊢
     cases hs : PairAll.step p s st with
-    | none => rw [hs] at hja hjb; exact ih p h hja hjb
+    | none =>
+      rw [hs] at hja hjb
+      have : endsB p [(s, st)] = [] := by simp [endsB, hs]
+      rw [this, List.append_nil]
+      exact ih p h hja hjb
     | some q =>
       rw [hs] at hja hjb
       simp only [Option.getD_some] at hja hjb ⊢
@@ -161,19 +254,27 @@ theorem Cfg.swap {ra rb : List Nat} (c : Cfg ra rb) : Cfg rb ra := by
   exact List.nodup_append.mpr ⟨this.2.1, this.1, fun a ha b hb hab => this.2.2 b hb a ha hab.symm⟩
 
 theorem PInv.init {ra rb : List Nat} (c : Cfg ra rb) (oa ob : Opts) (x jA j : Nat) :
-    PInv x jA j (x ∈ ra) (x ∈ rb) (init oa ob ra rb) := by
+    PInv x jA j (x ∈ ra) (x ∈ rb) (init oa ob ra rb) [] := by
   have hcnt := c.count x
   have hne : ∀ r : List Nat, r ≠ [] → r.isEmpty = false := by intro r h; cases r <;> simp_all
-  refine ⟨⟨⟨?_, ?_⟩, ?_, ?_⟩, SF.init oa ra, SF.init ob rb, hne ra c.neA, hne rb c.neB⟩
-  · refine ⟨?_, ?_, ?_, ?_, ?_, ?_, ?_, ?_, ?_⟩ <;>
-      simp [sm, absC, PairAll.init, view, PC.path, PC.swap, inMsgs, cC, cAP, sk]
-    all_goals first | exact hcnt | omega | (intro h; exact List.count_pos_iff.mp h)
-  · refine ⟨?_, ?_, ?_, ?_, ?_, ?_, ?_, ?_, ?_⟩ <;>
-      simp [Sm.swap, sm, absC, PairAll.init, view, PC.path, PC.swap, inMsgs, cC, cAP, sk]
-    all_goals first | omega | (intro h; exact List.count_pos_iff.mp h)
+  have hm : ∀ r : List Nat, 0 < List.count x r → x ∈ r := fun r h => List.count_pos_iff.mp h
+  have hsm : sm x (absC x jA j (PairAll.init oa ob ra rb)) =
+      { ca := ra.count x, cb := rb.count x, na := 0, nb := 0, sa := 0, sb := 0, cP := 0, aP := 0, cQ := 0, aQ := 0,
+        wa := 0, wb := 0, bP := 0, bQ := 0, ha := 0, hb := 0 } := by
+    simp [sm, absC, PairAll.init, view, PC.path, PC.swap, inMsgs, cC, cAP, cB, sk, b2n, bindHeld]
+  refine ⟨⟨⟨?_, ?_⟩, ?_, ?_, ?_⟩, SF.init oa ra, SF.init ob rb, hne ra c.neA, hne rb c.neB⟩
+  · rw [hsm]
+    refine ⟨?_, ?_, ?_, ?_, ?_, ?_, ?_, ?_, ?_, ?_, ?_, ?_, ?_, ?_, ?_⟩ <;> simp [Sm.dead] <;>
+      first | exact hcnt | omega | exact hm ra
+  · rw [hsm]
+    refine ⟨?_, ?_, ?_, ?_, ?_, ?_, ?_, ?_, ?_, ?_, ?_, ?_, ?_, ?_, ?_⟩ <;> simp [Sm.swap, Sm.dead] <;>
+      first | omega | exact hm rb
   · refine ⟨?_, ?_, ?_, ?_⟩ <;> simp [absC, PairAll.init, view, deaf]
   · refine ⟨?_, ?_, ?_, ?_, ?_, ?_⟩ <;>
       simp [absC, PairAll.init, view, PC.live, inMsgs, pX, sentX, wireMsgs, Log.dataOf, canAcc, canAccF]
+  · refine ⟨?_, ?_, ?_, ?_, ?_, ?_, ?_, ?_, ?_, ?_⟩ <;>
+      simp [absC, PairAll.init, view, PC.path, inMsgs, pX, sentX, wireMsgs, Log.dataOf, canAcc, canAccF, wroteX,
+        xlOfWrote, XL.wrotes, finP, finsOf, XL.fins, hasFin, hasPush, rxOpenJ]
 
 /-! ### Reading the theorem off -/
 
@@ -251,6 +352,89 @@ theorem accepted_prefix_of_sent {ra rb : List Nat} (c : Cfg ra rb) (oa ob : Opts
     intro o' ho'; rw [hj] at ho'; cases ho'; exact hx
   exact (PInv.run (c.excl x) (init oa ob ra rb) l (PInv.init c oa ob x _ j) hja hjb).good.dir.d5
 
+/-! ### Clean end-of-stream -/
+
+theorem wroteX_flatten (x : Nat) (g : Ghost) : (wroteX x g).flatten = wroteOn x g.wrote := by
+  unfold wroteX xlOfWrote wroteOn
+  induction g.wrote.filter (fun t => t.2.1 == x) with
+  | nil => rfl
+  | cons a r ih => simp only [List.map_cons, XL.wrotes, List.flatten_cons, ih]
+
+theorem finP_pos_of_mem (x j : Nat) (D : List EndEv) (h : (j, EndCause.peerFinish x) ∈ D) : 1 ≤ finP x j D := by
+  unfold finP finsOf
+  have hm : (j, EndCause.peerFinish x) ∈ D.filter (fun p => p == (j, EndCause.peerFinish x)) := by
+    simp [List.mem_filter, h]
+  cases hf : D.filter (fun p => p == (j, EndCause.peerFinish x)) with
+  | nil => rw [hf] at hm; cases hm
+  | cons a r => simp [XL.fins]
+
+theorem nobj_nw_spec (x : Nat) (objs : List Obj) (h1 : 1 ≤ objs.countP (fun o => o.fid == x))
+    (h2 : objs.countP (fun o => o.fid == x && !o.finishSent) = 0) :
+    (∃ (i : Nat) (o : Obj), objs[i]? = some o ∧ o.fid = x) ∧
+      ∀ (i : Nat) (o : Obj), objs[i]? = some o → o.fid = x → o.finishSent = true := by
+  constructor
+  · obtain ⟨o, ho, hf⟩ := List.countP_pos_iff.mp h1
+    obtain ⟨i, hi, rfl⟩ := List.mem_iff_getElem.mp ho
+    exact ⟨i, objs[i], List.getElem?_eq_getElem hi, by simpa using hf⟩
+  · intro i o ho hf
+    have hm : o ∈ objs := List.mem_of_getElem? ho
+    have := List.countP_eq_zero.mp h2 o hm
+    simpa [hf] using this
+
+/-- What the invariant gives at a state where object `j` of the right endpoint (carrying `x`, receiver still
+    open) has had the peer's `Finish x` processed for it: the frames accepted into `j` are exactly the
+    payloads the left endpoint's writes put on `x`, and every stream object of the left endpoint carrying `x`
+    has its write side shut (there is one). -/
+theorem finish_processed {ra rb : List Nat} (c : Cfg ra rb) (oa ob : Opts) (l : List (Side × Stim)) (x j : Nat)
+    (o : Obj) (hj : (run (init oa ob ra rb) l).b.objs[j]? = some o) (hx : o.fid = x) (hro : o.rxOpen = true)
+    (hf : (j, EndCause.peerFinish x) ∈ endsB (init oa ob ra rb) l) :
+    Log.dataOf (run (init oa ob ra rb) l).gb.accepted j = wroteX x (run (init oa ob ra rb) l).ga ∧
+    (∃ (i : Nat) (oA : Obj), (run (init oa ob ra rb) l).a.objs[i]? = some oA ∧ oA.fid = x) ∧
+    (∀ (i : Nat) (oA : Obj), (run (init oa ob ra rb) l).a.objs[i]? = some oA → oA.fid = x → oA.finishSent = true) := by
+  have hja : J x (run (init oa ob ra rb) l).a.objs.length (run (init oa ob ra rb) l).a := by
+    intro o' ho'
+    have := (List.getElem?_eq_some_iff.mp ho').1
+    omega
+  have hjb : J x j (run (init oa ob ra rb) l).b := by
+    intro o' ho'; rw [hj] at ho'; cases ho'; exact hx
+  have hp := PInv.run (c.excl x) (init oa ob ra rb) l (PInv.init c oa ob x _ j) hja hjb
+  have hP : 1 ≤ finP x j ([] ++ endsB (init oa ob ra rb) l) := by
+    rw [List.nil_append]; exact finP_pos_of_mem x j _ hf
+  have hrx : (absC x (run (init oa ob ra rb) l).a.objs.length j (run (init oa ob ra rb) l)).b.rxJ = true := by
+    simp [absC, view, rxOpenJ, hj, hro]
+  obtain ⟨h1, h2, h3, _⟩ := hp.good.fin.f6 hP hrx
+  exact ⟨h1, nobj_nw_spec x _ h2 h3⟩
+
+/-- Clean end-of-stream is exact: if a read on a live handle of object `j` (carrying `x`, receiver open) of the
+    right endpoint returns end-of-stream and a `Finish x` of the peer was processed for `j`, then what was read
+    from `j` is exactly what the left endpoint's application wrote on `x`. -/
+theorem clean_eof_exact {ra rb : List Nat} (c : Cfg ra rb) (oa ob : Opts) (l : List (Side × Stim)) (x j h n : Nat)
+    (o : Obj) (hh : (run (init oa ob ra rb) l).b.handles[h]? = some j)
+    (hj : (run (init oa ob ra rb) l).b.objs[j]? = some o) (hx : o.fid = x) (hro : o.rxOpen = true)
+    (he : (appRead (run (init oa ob ra rb) l).b h n).2 = .eof)
+    (hf : (j, EndCause.peerFinish x) ∈ endsB (init oa ob ra rb) l) :
+    chunks (run (init oa ob ra rb) l).gb.returned j = wroteOn x (run (init oa ob ra rb) l).ga.wrote := by
+  obtain ⟨hacc, _, _⟩ := finish_processed c oa ob l x j o hj hx hro hf
+  have hr := RunInv.run (init oa ob ra rb) l (⟨LInv.init oa ra, LInv.init ob rb⟩ : RunInv _ _ (init oa ob ra rb))
+  generalize run (init oa ob ra rb) l = pf at *
+  rw [appRead_res _ h j n o hh hj, readOut_eof] at he
+  obtain ⟨_, hb, hq⟩ := (readRes_eof_iff o).mp he
+  have hfl : o.rxq.flatten = [] := by
+    apply List.flatten_eq_nil_iff.mpr
+    exact hq
+  have hstr : str pf.b j = [] := by
+    simp only [str, strO, hj, Obj.stream, hb, hfl, List.append_nil]
+  have hdis : chunks pf.gb.discarded j = [] := by
+    cases hd : chunks pf.gb.discarded j with
+    | nil => rfl
+    | cons a r =>
+      obtain ⟨o', ho', hc', _⟩ := hr.lb.rx.disc j (by rw [hd]; exact List.cons_ne_nil _ _)
+      rw [hj] at ho'; cases ho'
+      rw [hro] at hc'; cases hc'
+  have heq := hr.lb.rx.eq j
+  rw [hstr, hdis, List.append_nil, List.append_nil, chunks_eq_flatten pf.gb.accepted, hacc, wroteX_flatten] at heq
+  exact heq
+
 /-! ### The other direction, by symmetry -/
 
 def Side.flip : Side → Side
@@ -290,5 +474,39 @@ theorem reads_prefix_of_writes_rev {ra rb : List Nat} (c : Cfg ra rb) (oa ob : O
     run_swap (init oa ob ra rb) l
   rw [hsw] at h
   exact h hi hx
+
+/-- The stimuli a run applies to the LEFT endpoint, and the end events they record. -/
+def opsA (p : PS) (l : List (Side × Stim)) : List Mux.Op := opsB p.swap (l.map (fun sa => (sa.1.flip, sa.2)))
+def endsA (p : PS) (l : List (Side × Stim)) : List EndEv := endsB p.swap (l.map (fun sa => (sa.1.flip, sa.2)))
+
+theorem run_a_ops (p : PS) (l : List (Side × Stim)) :
+    (run p l).a = runOps p.a (opsA p l) ∧ endsA p l = endsOf p.a (opsA p l) := by
+  have h := run_b_ops p.swap (l.map (fun sa => (sa.1.flip, sa.2)))
+  rw [run_swap] at h
+  exact h
+
+/-- … and in the direction right → left. -/
+theorem clean_eof_exact_rev {ra rb : List Nat} (c : Cfg ra rb) (oa ob : Opts) (l : List (Side × Stim)) (x i h n : Nat)
+    (o : Obj) (hh : (run (init oa ob ra rb) l).a.handles[h]? = some i)
+    (hi : (run (init oa ob ra rb) l).a.objs[i]? = some o) (hx : o.fid = x) (hro : o.rxOpen = true)
+    (he : (appRead (run (init oa ob ra rb) l).a h n).2 = .eof)
+    (hf : (i, EndCause.peerFinish x) ∈ endsA (init oa ob ra rb) l) :
+    chunks (run (init oa ob ra rb) l).ga.returned i = wroteOn x (run (init oa ob ra rb) l).gb.wrote := by
+  have hsw : run (init ob oa rb ra) (l.map (fun sa => (sa.1.flip, sa.2))) = (run (init oa ob ra rb) l).swap :=
+    run_swap (init oa ob ra rb) l
+  have := clean_eof_exact c.swap ob oa (l.map (fun sa => (sa.1.flip, sa.2))) x i h n o
+  rw [hsw] at this
+  exact this hh hi hx hro he hf
+
+theorem finish_processed_rev {ra rb : List Nat} (c : Cfg ra rb) (oa ob : Opts) (l : List (Side × Stim)) (x i : Nat)
+    (o : Obj) (hi : (run (init oa ob ra rb) l).a.objs[i]? = some o) (hx : o.fid = x) (hro : o.rxOpen = true)
+    (hf : (i, EndCause.peerFinish x) ∈ endsA (init oa ob ra rb) l) :
+    (∃ (k : Nat) (oB : Obj), (run (init oa ob ra rb) l).b.objs[k]? = some oB ∧ oB.fid = x) ∧
+    (∀ (k : Nat) (oB : Obj), (run (init oa ob ra rb) l).b.objs[k]? = some oB → oB.fid = x → oB.finishSent = true) := by
+  have hsw : run (init ob oa rb ra) (l.map (fun sa => (sa.1.flip, sa.2))) = (run (init oa ob ra rb) l).swap :=
+    run_swap (init oa ob ra rb) l
+  have := finish_processed c.swap ob oa (l.map (fun sa => (sa.1.flip, sa.2))) x i o
+  rw [hsw] at this
+  exact (this hi hx hro hf).2
 
 end Penguin.PairAll
